@@ -19,4 +19,5 @@ if [ $src -ne 0 ]; then
   exit 2
 fi
 rm -f "$ST.log"
-exec bin/cloverlint -property "$ID" -tier thorough -repo "$REPO" -verif "$(pwd)" -selftest-json "$ST"
+bin/cloverlint -property "$ID" -tier thorough -repo "$REPO" -verif "$(pwd)" -selftest-json "$ST"
+exit $?   # (no exec: the trap removes the scratch file)
